@@ -55,16 +55,18 @@ def _compiled_polynomial(ctx, model):
                      "PREC_")
     if len(consts) < 8:
         raise AnalysisError("precedence constants not found")
-    wit = kernels.horner_text_rule(mem.node, consts)
+    hshapes = kernels.DEEP_EXPONENT_SHAPES if ctx.tier == "thorough" else \
+        kernels.EXPONENT_SHAPES
+    wit = kernels.horner_text_rule(mem.node, consts, shapes=hshapes)
     ctx.ob("P/CompileMapper.map_polynomial/text-value", not wit,
            mem.owner.module.loc(mem.node),
            "the generated text denotes sum coeff * base**exp on "
-           f"{len(kernels.EXPONENT_SHAPES) - 1} exponent shapes" if not wit else
+           f"{len(hshapes)} exponent shapes" if not wit else
            "the text generated for a Polynomial does not denote sum coeff * "
            "base**exp: " + "; ".join(
                f"exponents {e} (enclosing precedence {p_}): '{got}' instead of "
                f"{want}" for e, p_, got, want in wit[:3]),
-           {"shapes": [list(e) for e in kernels.EXPONENT_SHAPES[1:]]})
+           {"shapes": [list(e) for e in hshapes]})
 
 
 # ---------------------------------------------------------------------------
